@@ -50,6 +50,7 @@ type HOp struct {
 	Kind string   `json:"kind"`
 	Path []string `json:"path,omitempty"` // exact path or pattern; for hval/hupd the path the handle was taken at
 	Val  int      `json:"val,omitempty"`  // add, hupd: value written
+	Nil  bool     `json:"nil,omitempty"`  // add: the value written is nil (Val is 0); judged by the differential oracle only
 	H    int      `json:"h,omitempty"`    // getleaf binds handle H; hval/hupd use it
 	Call int64    `json:"call"`
 	Ret  int64    `json:"ret"`
@@ -87,7 +88,11 @@ func (o *HOp) String() string {
 	fmt.Fprintf(&b, "g%d[%d,%d] ", o.G, o.Call, o.Ret)
 	switch o.Kind {
 	case "add":
-		fmt.Fprintf(&b, "Add(%q,%d)", o.Path, o.Val)
+		if o.Nil {
+			fmt.Fprintf(&b, "Add(%q,nil)", o.Path)
+		} else {
+			fmt.Fprintf(&b, "Add(%q,%d)", o.Path, o.Val)
+		}
 		if o.Err != "" {
 			b.WriteString("=error")
 		} else {
@@ -280,6 +285,11 @@ func compile(h *History, strong bool) (*compiled, error) {
 		o := &h.Ops[i]
 		if o.Ret < o.Call {
 			return nil, fmt.Errorf("op %d returns before it is called", i)
+		}
+		if o.Nil {
+			// a leaf holding nil is an "empty node" (Walk reports it, Query and Delete
+			// skip it, an Add may turn it into a branch): outside this model
+			return nil, fmt.Errorf("op %d stores the value nil: such histories are judged by the differential oracle only", i)
 		}
 		switch o.Kind {
 		case "add":
